@@ -241,11 +241,12 @@ payload_plausible(RPFrame *f)
     switch (f->header.type) {
     case RP_FRAME_READ_REQUEST:
         /* FALLTHROUGH */
-    case RP_FRAME_WRITE_RESPONSE:
-        /* FALLTHROUGH */
     case RP_FRAME_META:
         return (actualsize == 0) ? 0 : -EFAULT;
     case RP_FRAME_READ_RESPONSE:
+        /* FALLTHROUGH */
+    case RP_FRAME_WRITE_RESPONSE:
+        /* Error responses to write requests carry a 32 bit payload. */
         /* FALLTHROUGH */
     case RP_FRAME_WRITE_REQUEST:
         return (f->header.blocksize == actualsize) ? 0 : -EFAULT;
